@@ -6,7 +6,7 @@
     and of the range coder (RcAbs/RcDec/RcEnc/RcRoundtrip.v): every bit
     sequence, under every context-selection program, with the adaptive
     probabilities, survives encode-then-decode. *)
-From XZ Require Import Base Bcj BcjProofs Xz VliProofs Bound Lzma RcAbs RcDec RcEnc RcRoundtrip RcCodes LzmaEnc LzmaSym LzmaRun.
+From XZ Require Import Base Bcj BcjProofs BcjProofs2 Xz VliProofs Bound Lzma RcAbs RcDec RcEnc RcRoundtrip RcCodes LzmaEnc LzmaSym LzmaRun.
 Local Open Scope N_scope.
 
 Theorem delta_filter_lossless : forall dist l, bytes_ok l -> delta_decode dist (delta_encode dist l) = l.
@@ -17,6 +17,16 @@ Theorem arm_filter_lossless : forall start l, aligned4 (w32 start) -> bytes_ok l
   fst (arm_code false start (fst (arm_code true start l))) = l.
 Proof. exact arm_roundtrip. Qed.
 Print Assumptions arm_filter_lossless.
+
+Theorem powerpc_filter_lossless : forall start l, aligned4 (w32 start) -> bytes_ok l ->
+  fst (powerpc_code false start (fst (powerpc_code true start l))) = l.
+Proof. exact powerpc_roundtrip. Qed.
+Print Assumptions powerpc_filter_lossless.
+
+Theorem sparc_filter_lossless : forall start l, aligned4 (w32 start) -> bytes_ok l ->
+  fst (sparc_code false start (fst (sparc_code true start l))) = l.
+Proof. exact sparc_roundtrip. Qed.
+Print Assumptions sparc_filter_lossless.
 
 Theorem integer_fields_lossless : forall v rest, v <= VLI_MAX -> vli_decode (vli_encode v ++ rest) = Some (v, rest).
 Proof. exact vli_decode_encode. Qed.
